@@ -580,6 +580,106 @@ def scan_tree(root=None):
     return out
 
 
+# ------------------------------------------------------------------ which constructor of the models
+HOW_CLASS = {"error!": "macro", "warning!": "macro", ".into_source_diag": "callback", "forward": "forward"}
+
+
+def how_class(how):
+    return HOW_CLASS.get(how, "constructor")
+
+
+def assign_ctors(items, table):
+    """name, for every site, the constructor of the models that stands for it (it["ctor"], it["via"]), from the
+    dictionary [table] of Model/DiagMap.v (rows: fine key, constructor, wording):
+      1 key       the row with exactly this (stage, file, fn, how, severity, pushes, ordinal) and this message
+      2 message   else an unused row of the same file with the same message (one of the same fn first): the
+                  diagnostic moved, was reordered, is built or pushed another way, or changed severity
+      3 key only  else the row with exactly this key: reworded in place
+      4 position  else, when a file has as many unnamed sites as unused rows and they pair off in source order with
+                  the same class of `how` (macro / constructor / callback / forward): fn renamed AND message reworded
+      5 merged    a row still unused whose fn has a named site of the same class and severity: that site is listed a
+                  second time for this constructor (two sites regrouped into one)
+      -           else "unknown" - which breaks the pin (a diagnostic nobody mapped)
+    A push of a diagnostic made elsewhere (how = "forward") is `Forward` without looking anything up."""
+    rows = [{"key": k, "ctor": c, "msg": m, "used": False} for k, c, m in (table or []) if k[3] != "forward"]
+    for it in items:
+        it["ctor"], it["via"] = (("Forward", "how") if it["how"] == "forward" else (None, None))
+
+    def take(it, pred, via):
+        if it["ctor"] is not None:
+            return
+        for r in rows:
+            if not r["used"] and r["key"][1] == ascii_of(it["file"]) and how_class(r["key"][3]) == how_class(it["how"]) \
+                    and pred(r):
+                r["used"] = True
+                it["ctor"], it["via"] = r["ctor"], via
+                return
+
+    for via, pred in (
+            ("key", lambda it, r: r["key"] == key_of(it) and r["msg"] == ascii_of(it["msg"])),
+            ("fn+message", lambda it, r: r["key"][2] == ascii_of(it["fn"]) and r["msg"] == ascii_of(it["msg"])),
+            ("message", lambda it, r: r["msg"] == ascii_of(it["msg"])),
+            ("key, reworded", lambda it, r: r["key"] == key_of(it))):
+        for it in items:
+            take(it, lambda r, it=it, pred=pred: pred(it, r), via)
+    for f in sorted(set(it["file"] for it in items)):
+        left = [it for it in items if it["file"] == f and it["ctor"] is None]
+        free = [r for r in rows if not r["used"] and r["key"][1] == ascii_of(f)]
+        if left and len(left) == len(free) and all(how_class(a["how"]) == how_class(b["key"][3]) for a, b in zip(left, free)):
+            for a, b in zip(left, free):
+                b["used"] = True
+                a["ctor"], a["via"] = b["ctor"], "position"
+    for it in items:
+        if it["ctor"] is None:
+            it["ctor"], it["via"] = "unknown", "-"
+    # 5 merged: a row nobody used, of a fn that still has a named site of the same class and severity: the sites of
+    # two constructors were regrouped into one (a closure / helper that takes the differing text as an argument).  The
+    # site is listed once more, for that constructor too (same key; the old wording in the message)
+    out = []
+    for it in items:
+        out.append(it)
+        if it["via"] in ("how", "-", "merged"):
+            continue
+        for r in rows:
+            if not r["used"] and r["key"][1] == ascii_of(it["file"]) and r["key"][2] == ascii_of(it["fn"]) \
+                    and how_class(r["key"][3]) == how_class(it["how"]) and r["key"][4] == it["sev"]:
+                r["used"] = True
+                twin = dict(it)
+                twin.update({"ctor": r["ctor"], "via": "merged", "msg": "<also, regrouped into this site: %s>" % r["msg"]})
+                out.append(twin)
+    items[:] = out
+    return items
+
+
+def summary_of(items):
+    """what is pinned: per (stage, file stem) the SET of (severity, constructor), as sorted rows; the number of sites
+    of each row rides along for the reader (two sites of one constructor merged into one, or one split in two, is
+    a regrouping, not a change of the diagnostics).  Pushes of diagnostics made elsewhere ("forward") are not
+    diagnostics and stay out of it"""
+    cnt = {}
+    for it in items:
+        if it["how"] == "forward":
+            continue
+        k = (it["stage"], ascii_of(it["file"]), it["sev"], it["ctor"])
+        cnt[k] = cnt.get(k, 0) + 1
+    return [k + (n,) for k, n in sorted(cnt.items())]
+
+
+def render_row(row):
+    stage, file, sev, ctor, n = row
+    return "(%s, %s, %s, %s)" % (COQ_STAGE[stage], _q(file), COQ_SEV[sev], _q(ctor))
+
+
+ROW = re.compile(r"\(\s*(AtParse|AtAnalysis|AtAny)\s*,\s*" + r'"((?:[^"]|"")*)"' + r"\s*,\s*(IsError|IsWarning|IsDynamic)\s*,\s*"
+                 + r'"((?:[^"]|"")*)"' + r"\s*\)")
+
+
+def parse_rows(text):
+    rs, rv = {v: k for k, v in COQ_STAGE.items()}, {v: k for k, v in COQ_SEV.items()}
+    return [(rs[m.group(1)], m.group(2).replace('""', '"'), rv[m.group(3)], m.group(4).replace('""', '"'), 1)
+            for m in ROW.finditer(text)]
+
+
 # ------------------------------------------------------------------ Coq
 COQ_STAGE = {"Parse": "AtParse", "Analysis": "AtAnalysis", "AnyStage": "AtAny"}
 COQ_SEV = {"Error": "IsError", "Warning": "IsWarning", "Dynamic": "IsDynamic"}
@@ -613,7 +713,7 @@ def render_key(key, msg=None, ctor="Key", sep=""):
 
 def render_entry(it):
     """`Site ..` as written in Gen/DiagSites.v"""
-    return "  %s\n    %s" % (render_key(key_of(it), ctor="Site"), _q(ascii_of(it["msg"])))
+    return "  %s\n    %s %s" % (render_key(key_of(it), ctor="Site"), _q(it["ctor"]), _q(ascii_of(it["msg"])))
 
 
 def render(items):
@@ -637,7 +737,8 @@ def render(items):
            "(* BlockParser::error / SourceReport::error (assert an Error), ::warn (assert a Warning), SourceReport::push *)",
            "Inductive push := ByError (receiver : string) | ByWarn (receiver : string) | ByPush (receiver : string).",
            "Record site := Site { site_stage : stage; site_file : string; site_fn : string; site_how : string;",
-           "                      site_sev : sev; site_pushes : list push; site_ord : nat; site_msg : string }.",
+           "                      site_sev : sev; site_pushes : list push; site_ord : nat; site_ctor : string;",
+           "                      site_msg : string }.",
            "Record key := Key { key_stage : stage; key_file : string; key_fn : string; key_how : string;",
            "                    key_sev : sev; key_pushes : list push; key_ord : nat }.",
            "Definition site_key (s : site) : key :=",
@@ -645,11 +746,22 @@ def render(items):
            "Definition sites : list site := ["]
     out.append(";\n".join(render_entry(it) for it in items))
     out.append("].")
+    out.append("(* what is pinned (C07_diag_inventory): per (stage, file) the set of (severity, constructor of the models that")
+    out.append("   stands for the diagnostic: site_ctor), as sorted rows; \"forward\" pushes are left out.")
+    out.append("   C07_diag_summary_ok: these are exactly the (stage, file, severity, constructor) of [sites]. *)")
+    out.append("Definition summary : list (stage * string * sev * string) := [")
+    out.append(";\n".join("  " + render_row(r) for r in summary_of(items)))
+    out.append("].")
     return "\n".join(out) + "\n"
 
 
+def scan(root=None):
+    """the sites of the tree, each with the constructor the dictionary of Model/DiagMap.v gives it"""
+    return assign_ctors(scan_tree(root), pinned_table())
+
+
 def regenerate():
-    items = scan_tree()
+    items = scan()
     path = os.path.join(common.COQ, "Gen/DiagSites.v")
     txt = render(items)
     changed = not (os.path.exists(path) and open(path, encoding="utf-8").read() == txt)
@@ -662,7 +774,7 @@ def regenerate():
 QS = r'"((?:[^"]|"")*)"'
 ENTRY = re.compile(r"(?:Site|Key)\s+(AtParse|AtAnalysis|AtAny)\s+" + QS + r"\s+" + QS + r"\s+" + QS +
                    r"\s+(IsError|IsWarning|IsDynamic)\s+\[([^\]]*)\]\s+(\d+)\s*;?(?:\s*\(\*\s*" + QS + r"\s*\*\))?"
-                   r"(?:\s*,\s*([A-Za-z_]+(?:\s+[A-Za-z_0-9]+)?)\s*\))?")
+                   r"(?:\s*,\s*([A-Za-z_]+(?:\s+[A-Za-z_0-9]+)?)\s*\)\s*;?(?:\s*\(\*\s*" + QS + r"\s*\*\))?)?")
 PUSH = re.compile(r"(ByError|ByWarn|ByPush)\s+" + QS)
 
 
@@ -672,8 +784,34 @@ def parse_entries(text):
     rs, rv = {v: k for k, v in COQ_STAGE.items()}, {v: k for k, v in COQ_SEV.items()}
     return [((rs[m.group(1)], un(m.group(2)), un(m.group(3)), un(m.group(4)), rv[m.group(5)],
               tuple((k, un(r)) for k, r in PUSH.findall(m.group(6))), int(m.group(7))),
-             None if m.group(8) is None else un(m.group(8)), m.group(9))
+             un(m.group(8)) if m.group(8) is not None else (un(m.group(10)) if m.group(10) is not None else None),
+             m.group(9))
             for m in ENTRY.finditer(text)]
+
+
+def expected_summary():
+    """the rows in the statement of C07_diag_inventory (the single place where the expectation lives)"""
+    src = open(os.path.join(common.COQ, "Properties/C07.v"), encoding="utf-8").read()
+    m = re.search(r"Theorem\s+C07_diag_inventory\s*:\s*DiagSites\.summary\s*=\s*\[(.*?)\n\s*\]\s*\.\s*Proof", src, flags=re.S)
+    return None if not m else parse_rows(m.group(1))
+
+
+def summary_diff(items, expected):
+    """(lines, unknown): the rows of the multiset that differ from the pinned ones, each followed by the sites of
+    the source that make up the row (with their messages), and the sites nobody could name"""
+    have = {r[:4]: r[4] for r in summary_of(items)}
+    exp = {r[:4]: r[4] for r in (expected or [])}
+    lines = []
+    for k in sorted(set(have) | set(exp)):
+        if (k in have) != (k in exp):
+            lines.append("%s %s %s.rs: %s diagnostic of constructor %s (%s)" % (
+                "+" if k in have else "-", k[0], k[1], k[2], k[3],
+                "in the code, not pinned" if k in have else "pinned, no site of the code has it"))
+            for it in items:
+                if (it["stage"], ascii_of(it["file"]), it["sev"], it["ctor"]) == k and it["how"] != "forward":
+                    lines.append("      %s:%d %s (named by %s)" % (it["path"], it["line"], show_key(key_of(it), it["msg"]), it["via"]))
+    unknown = ["%s:%d %s" % (it["path"], it["line"], show_key(key_of(it), it["msg"])) for it in items if it["ctor"] == "unknown"]
+    return lines, unknown
 
 
 def expected_sites():
@@ -694,7 +832,7 @@ def pinned_table():
     m = re.search(r"Definition\s+table\s*:[^=]*:=\s*\[(.*?)\n\]\s*\.", src, flags=re.S)
     if not m:
         return None
-    return [(k, " ".join(t.split())) for k, _, t in parse_entries(m.group(1)) if t is not None]
+    return [(k, " ".join(t.split()), msg) for k, msg, t in parse_entries(m.group(1)) if t is not None]
 
 
 def show_key(key, msg=None):
@@ -729,8 +867,15 @@ if __name__ == "__main__":
         print("\n".join("  " + render_key(key_of(it), it["msg"], sep=";" if i + 1 < len(its) else "")
                         for i, it in enumerate(its)))
         sys.exit(0)
+    if len(sys.argv) > 1 and sys.argv[1] == "--summary":
+        its = scan(sys.argv[2] if len(sys.argv) > 2 else None)
+        print(";\n".join("  " + render_row(r) for r in summary_of(its)))
+        for it in its:
+            if it["via"] != "key":
+                print("# %s:%d %s -> %s (by %s)" % (it["path"], it["line"], show_key(key_of(it), it["msg"]), it["ctor"], it["via"]))
+        sys.exit(0)
     if len(sys.argv) > 1:
-        its = scan_tree(sys.argv[1])
+        its = scan(sys.argv[1])
     else:
         r = regenerate()
         print("changed:", r["changed"])
